@@ -336,16 +336,20 @@ def u2(rep, src):
         rep.undecidable("U2", Q + "@decision", "expected one `if <cond> { Some(Constraint::Unique) } else { None }`, found %d" % len(sites), f.where())
         return
     site = sites[0]
+    cond = site["cond"]
+    hops = 0
+    while cond["k"] == "path" and len(cond["segs"]) == 1 and cond["segs"][0] in lets and hops < 4:  # `let is_unique = <decision>; if is_unique { .. }`
+        cond, hops = lets[cond["segs"][0]], hops + 1
     where = "src/%s:%d" % (RM, site["l"])
     ev = block_value(site["else"]) if site.get("else") else None
     if ev is None or path_of(ev) != "None":
         rep.violation("U2", Q + "@else", "the alternative of the Unique decision is not `None`: %s" % show(site.get("else"), 60), where)
     for o in others:
         inside_then = any(y is o for y in walk(site["then"]))
-        inside_cond = any(y is o for y in walk(site["cond"]))
+        inside_cond = any(y is o for y in walk(site["cond"])) or any(y is o for y in walk(cond))
         if not inside_then and not inside_cond:
             rep.violation("U2", Q + "@second-site", "Some(Constraint::Unique) is also produced outside the decision", "src/%s:%d" % (RM, o["l"]))
-    conj = flat(site["cond"], "&&")
+    conj = flat(cond, "&&")
     firsts = [(c, is_first_test(c)) for c in conj if is_first_test(c)]
     rep.instance("U2", Q + "@first", {"conjuncts": [show(c, 70) for c in conj], "first_test_on": [n for _, n in firsts]})
     if len(firsts) != 1:
@@ -718,7 +722,9 @@ def u4(rep, src):
         floor=2,
         necessary="a literal list with a repeated value declared UNIQUE",
     )
-    f = inherent(src, "schema", "Values")
+    from .canon import canon_view
+
+    f = canon_view(inherent(src, "schema", "Values"), src)  # named locals / helpers / early returns are transparent
     vp = [p["pat"]["name"] for p in f.params if "Value" in p["ty"]]
     lets = {l["pat"]["name"]: l["init"] for l in find(f.body, "let") if l["pat"]["k"] == "ident" and l.get("init") is not None}
     sites = [(x, g) for x, g in walk_guards(f.body) if x["k"] == "call" and show(x, 0) in ("Some(Constraint::Unique)", "Some(Constraint::PrimaryKey)")]
